@@ -57,11 +57,23 @@ KNOBS = [
 
 BATCH_P1 = {"new": 60, "set": 2, "m2o": 8, "app": 8, "rem": 1, "repl": 1, "clr": 0, "pop": 0, "del": 0, "cycdel": 0,
             "exp": 0, "readd": 0, "merge": 0, "rowswitch": 0, "pk": 0, "flush": 2, "commit": 0, "expire": 0,
-            "expall": 0, "refresh": 0, "get": 0, "touch": 2}
+            "expall": 0, "refresh": 0, "get": 0, "touch": 2, "tnew": 10, "add": 6}
 BATCH_P2 = {"new": 25, "set": 6, "m2o": 14, "app": 10, "rem": 8, "repl": 4, "clr": 2, "pop": 2, "del": 16, "cycdel": 5,
             "exp": 0, "readd": 0, "merge": 0, "rowswitch": 2, "pk": 0, "flush": 0, "commit": 0, "expire": 0,
-            "expall": 0, "refresh": 0, "get": 0, "touch": 4}
+            "expall": 0, "refresh": 0, "get": 0, "touch": 4, "tnew": 4, "add": 3, "undel": 4}
 FOCUS = [["Z2"], ["Z2c"], ["Z3", "Z4"], ["Z6"], ["Z1", "Z1b"], ["Z2", "Z2c"], ["Z1", "Z3", "Z6"], ["Z4", "Z1b"], ["Z7", "Z1"]]
+
+
+def flush_errors():
+    """Exception types a flush raises (with autoflush off, loading a collection that has a
+    queued pending removal of an item the database does not list raises a bare ValueError
+    from collections.remove_without_event(): the op is counted as refused, observation only); anything else out of an op (e.g. InvalidRequestError
+    from Session.add() cascading onto a stale member) is the op being refused, not a flush."""
+    import sqlalchemy as sa
+    from sqlalchemy.orm import exc as orm_exc
+
+    return (sa.exc.DBAPIError, sa.exc.CircularDependencyError, orm_exc.FlushError, orm_exc.StaleDataError,
+            orm_exc.ObjectDeletedError)
 
 
 def evaluator(R, rig, snap):
@@ -205,7 +217,10 @@ def batch_case(ctx, R, zoo, tpl, knobs, rng, idx):
         g1 = R.Gen(rig, rng, fams, BATCH_P1)
         try:
             apply_ops(ctx, R, rig, it, g1, rng.randint(6, 30), ops)
-        except sa.exc.SQLAlchemyError as e:
+        except (sa.exc.SQLAlchemyError, ValueError) as e:   # ValueError: see note on pending removals below
+            if not isinstance(e, flush_errors()):
+                ctx.count("ops_refused_by_session")
+                return
             # phase 1 flushes are judged too (autoflush / explicit flush ops inside)
             ctx.violation("phase1-" + type(e).__name__, str(e)[:300], {"ops": ops, **kd})
             return
@@ -219,7 +234,10 @@ def batch_case(ctx, R, zoo, tpl, knobs, rng, idx):
         mark = rig.spy.mark()
         try:
             apply_ops(ctx, R, rig, it, g2, rng.randint(8, 40), ops)
-        except sa.exc.SQLAlchemyError as e:
+        except (sa.exc.SQLAlchemyError, ValueError) as e:   # ValueError: see note on pending removals below
+            if not isinstance(e, flush_errors()):
+                ctx.count("ops_refused_by_session")
+                return
             # an autoflush inside phase 2 failed: it is a flush of a valid state as well
             tr = R.FKTracker(rig)
             mech, summary = classify(R, rig, tr, e, mark)
@@ -242,7 +260,7 @@ def random_case(ctx, R, zoo, tpl, knobs, rng, maxops):
     fams = rng.sample(R.FAMILIES, rng.randint(1, 3))
     rig = R.Rig(zoo, tpl, ctx.tmppath(".db"), expire_on_commit=rng.random() < 0.5)
     it = R.Interp(rig)
-    gen = R.Gen(rig, rng, fams, {"flush": 0, "commit": 0, "expire": 0, "expall": 0, "refresh": 0, "pk": 2, "merge": 2, "exp": 0, "readd": 0})
+    gen = R.Gen(rig, rng, fams, {"flush": 0, "commit": 0, "expire": 0, "expall": 0, "refresh": 0, "pk": 2, "merge": 2, "exp": 0, "readd": 0, "tnew": 5, "add": 4, "undel": 3})
     kd = {"knobs": knobs, "families": fams}
     ops = []
     try:
@@ -250,7 +268,10 @@ def random_case(ctx, R, zoo, tpl, knobs, rng, maxops):
             mark = rig.spy.mark()
             try:
                 apply_ops(ctx, R, rig, it, gen, rng.randint(2, maxops), ops)
-            except sa.exc.SQLAlchemyError as e:
+            except (sa.exc.SQLAlchemyError, ValueError) as e:
+                if not isinstance(e, flush_errors()):
+                    ctx.count("ops_refused_by_session")
+                    return
                 mech, summary = classify(R, rig, R.FKTracker(rig), e, mark)
                 ctx.violation(mech, f"autoflush: {summary}", {"ops": ops, **kd, "exception": type(e).__name__})
                 return
